@@ -434,8 +434,12 @@ class OpGen:
             k_obj = d.int(1, min(2, len(names) - 1))
             for _ in range(k_obj):
                 types.append(d.choice(members))
+            related_abs = [c for c in abstract if c.name != fam.name and relation(self.schema, fam, c) in ("super", "sub_iface")]
             for _ in range(d.int(1, min(2, len(names) - len(types)))):
-                types.append(fam if d.bool(0.8) else d.choice(abstract))
+                if related_abs and d.bool(0.4):
+                    types.append(d.choice(related_abs))  # a super- / sub-interface of the family's abstract type
+                else:
+                    types.append(fam if d.bool(0.8) else d.choice(abstract))
             d.tag("frag.family_mode")
         while len(types) < len(names):
             t = d.choice(self.composites)
